@@ -122,12 +122,21 @@ fn next_str<'s>(bytes: &mut &'s [u8], state: &mut State) -> Option<&'s str> {
     });
     let (_, next) = bytes.split_at(offset.unwrap_or(bytes.len()));
     *bytes = next;
-    *state = State::Ground;
+    if *state == State::Utf8 {
+        // `str` guarantees whole characters; they are taken as part of the printable run below
+        *state = State::Ground;
+    }
 
-    let offset = bytes.iter().copied().position(|b| {
-        let (_next_state, action) = state_change(State::Ground, b);
-        !(is_printable_bytes(action, b) || is_utf8_continuation(b))
-    });
+    let offset = if *state == State::Ground {
+        bytes.iter().copied().position(|b| {
+            let (_next_state, action) = state_change(State::Ground, b);
+            !(is_printable_bytes(action, b) || is_utf8_continuation(b))
+        })
+    } else {
+        // Either out of data mid-sequence (the state carries over to the next chunk) or at a
+        // whitespace control inside a sequence: only that byte is printable, the sequence continues
+        Some(bytes.len().min(1))
+    };
     let (printable, next) = bytes.split_at(offset.unwrap_or(bytes.len()));
     *bytes = next;
     if printable.is_empty() {
@@ -300,25 +309,31 @@ fn next_bytes<'s>(
     let (_, next) = bytes.split_at(offset.unwrap_or(bytes.len()));
     *bytes = next;
 
-    let offset = bytes.iter().copied().position(|b| {
-        if *state == State::Utf8 {
-            if utf8parser.add(b) {
-                *state = State::Ground;
-            }
-            false
-        } else {
-            let (next_state, action) = state_change(State::Ground, b);
-            if next_state != State::Anywhere {
-                *state = next_state;
-            }
+    let offset = if *state == State::Ground || *state == State::Utf8 {
+        bytes.iter().copied().position(|b| {
             if *state == State::Utf8 {
-                utf8parser.add(b);
+                if utf8parser.add(b) {
+                    *state = State::Ground;
+                }
                 false
             } else {
-                !is_printable_bytes(action, b)
+                let (next_state, action) = state_change(State::Ground, b);
+                if next_state != State::Anywhere {
+                    *state = next_state;
+                }
+                if *state == State::Utf8 {
+                    utf8parser.add(b);
+                    false
+                } else {
+                    !is_printable_bytes(action, b)
+                }
             }
-        }
-    });
+        })
+    } else {
+        // Either out of data mid-sequence or at a whitespace control inside a sequence: only
+        // that byte is printable, the sequence continues
+        Some(bytes.len().min(1))
+    };
     let (printable, next) = bytes.split_at(offset.unwrap_or(bytes.len()));
     *bytes = next;
     if printable.is_empty() {
